@@ -103,6 +103,39 @@ def trace_corruption(rep):
         results.append({"monitor": "P_C08", "trace": t["id"], "accepted": got_ok, "why": verdicts8[t["id"]]["why"], "as_expected": got_ok == expect_ok})
         ok_all &= got_ok == expect_ok
         print(f"trace [{t['id']}] -> {'accepted' if got_ok else 'rejected: ' + verdicts8[t['id']]['why']} {'OK' if got_ok == expect_ok else 'UNEXPECTED'}")
+    # route D: a recorded execution of the scenario programs, then one recorded field corrupted at a time
+    from .. import suitectx
+    rec = [t for t in suitectx.record_scenarios() if t["test"].startswith("generation_next_to_an_occupied_key[asyncio]")][0]
+    good = suitectx.project("good-recorded", rec["events"])
+    evs = good["events"]
+    vari = {"good-recorded": evs}
+    x = copy.deepcopy(evs)
+    gi = next(i for i, e in enumerate(x) if e["ev"] == "get" and e["r"] == "val")
+    x[gi]["vid"] += 1000
+    vari["a lookup reports another object"] = x
+    x = copy.deepcopy(evs)
+    ai = next(i for i, e in enumerate(x) if e["ev"] == "add" and e["r"] == "ok")
+    x[ai]["evs"] = []
+    vari["the event of an add removed"] = x
+    x = copy.deepcopy(evs)
+    ni = next(i for i, e in enumerate(x) if e["ev"] == "new" and e["p"] != 0)
+    x[ni]["post"][-1]["res"] = []
+    vari["the child's inherited table emptied"] = x
+    x = copy.deepcopy(evs)
+    del x[next(i for i, e in enumerate(x) if e["ev"] == "addfac")]
+    vari["the add_resource_factory call removed"] = x
+    x = copy.deepcopy(evs)
+    ei = next(i for i, e in enumerate(x) if e["ev"] == "getall")
+    x[ei]["cur"] = 1 if x[ei]["cur"] != 1 else 2
+    vari["the current context of a call altered"] = x
+    tr = [{"id": k, "events": v} for k, v in vari.items()]
+    vd, _, _ = core.validate_traces("Trace_CtxSuite", tr)
+    for k in vari:
+        expect_ok = k == "good-recorded"
+        got_ok = core.tla_bool(vd[k]["ok"])
+        results.append({"monitor": "Trace_CtxSuite", "trace": k, "accepted": got_ok, "why": vd[k]["why"], "as_expected": got_ok == expect_ok})
+        ok_all &= got_ok == expect_ok
+        print(f"recorded [{k}] -> {'accepted' if got_ok else 'rejected: ' + vd[k]['why']} {'OK' if got_ok == expect_ok else 'UNEXPECTED'}")
     rep.extra["trace_corruption"] = results
     return ok_all
 
